@@ -1,5 +1,11 @@
 package main
 
+import (
+	"strings"
+
+	"golang.org/x/tools/go/ssa"
+)
+
 func init() { register("C08", runC08) }
 
 const (
@@ -98,6 +104,37 @@ func c08Definitions(c *Ctx, ge *GuardEngine) {
 	}
 	if n == 0 {
 		c.Undecided("definition", "immature-maturity", "", "no store into a MaturityHeight field found on the apply side")
+	}
+	// median timestamp: the middle element for an odd count, the midpoint of the two middle elements for an even one
+	if fn := c.P.Func("consensus.(State).medianTimestamp"); fn != nil {
+		c.NoteFunc(FuncName(fn))
+		as := ge.ReturnAtoms(fn, 0)
+		X := "…PrevTimestamps…"
+		mid := mustRe(pat(X + "[(len(…) / const:2)]"))
+		avg := mustRe(pat("call (time.Time).Add(" + X + "[((len(…) / const:2) - const:1)], (call (time.Time).Sub(" + X + "[(len(…) / const:2)], " + X + "[((len(…) / const:2) - const:1)]) / const:2))"))
+		hasMid, hasAvg, extra := false, false, 0
+		for _, a := range as {
+			for _, alt := range splitPhi(a) {
+				switch {
+				case avg.MatchString(alt):
+					hasAvg = true
+				case mid.MatchString(alt):
+					hasMid = true
+				default:
+					extra++
+				}
+			}
+		}
+		parity := false
+		for _, g := range ge.Guards(fn, nil, nil, nil, 0, map[*ssa.Function]int{}) {
+			if strings.HasPrefix(g.L, "(len(") && strings.HasSuffix(g.L, " % const:2)") && (g.Op == "!=" || g.Op == "==") && g.R == "const:0" {
+				parity = true
+			}
+		}
+		ok := hasMid && hasAvg && extra == 0 && parity
+		c.Check(ok, "definition", "median-timestamp", c.P.Pos(fn.Pos()), ifElse(ok, "odd count: the middle timestamp; even count: the midpoint of the two middle timestamps (the reference time of every time-lock and of the minimum block time)", "medianTimestamp returns "+joinShort(as)+": the median of an even number of timestamps is the midpoint of the two middle ones; any other choice shifts every time boundary"))
+	} else {
+		c.Undecided("definition", "median-timestamp", "", "anchor does not resolve")
 	}
 	// in-block storage-proof shortcut
 	gs, ok := ge.EntryGuards("consensus.(*MidState).storageProofWindowID")
